@@ -26,7 +26,10 @@ LEVEL_TEXT = ("For each seeded (old registry, new registry, device write limit) 
               "one save is first recorded, then the save is re-executed once per crash point: before every raw "
               "operation (exhaustive) and inside every raw write at byte offsets 1, middle, last-1 (torn write); after "
               "each crash a fresh Persistence loads the surviving image and the result must be the old or the new "
-              "registry. Crash points exhaustive per triple, triples seeded.")
+              "registry. Crash points exhaustive per triple, triples seeded. A fifth of the triples run in session mode "
+              "(start -> saver -> registry changes -> stop, crash points over the whole raw-operation sequence). On "
+              "every damaged image (and a sample of the others) the process is additionally restarted twice through a "
+              "real Gateway context: a start on the surviving file must not change what the file loads to.")
 LEVEL_NOTE = ("Crash model = process death: bytes handed to the raw device survive, user-space buffers (TextIOWrapper/"
               "BufferedWriter) do not. Power loss / fsync / directory-entry durability are out of scope. Raw operations "
               "are those of Python's io stack on the simulated device.")
